@@ -95,6 +95,32 @@ fn used_destination(s: &Setup, r: &mut Rng) -> Ciphertext {
         } })).unwrap_or_else(|_| Ciphertext::new())
 }
 
+/// `keygen_op` lines: KEY GENERATION against the model (`genSecretKey`, `genPublicKey`): a fresh generator on the setup's context with
+/// the sampling tape armed; the line carries the ternary sample, the (a, e) the public key drew, and for a saved seed the stored seed.
+/// Output: the stored secret key (NTT form, key level) and the public key as a ciphertext (`ntt cf polys`, seed expanded).
+fn keygen_lines(out: &mut Out, s: &Setup, cls: &str) {
+    let (kg, smp) = taped(|| KeyGenerator::new(s.ctx.clone()));
+    let kg = match kg { Some(k) => k, None => { out.raw(&format!("!FAIL keygen_op {} :: KeyGenerator::new panicked # {}", cls, cls)); return } };
+    if smp.len() != 1 || smp[0].kind != "ternary" { out.raw(&format!("!FAIL keygen_op {} :: secret key generation drew {:?}, expected [ternary] # {}", cls, smp.iter().map(|x| x.kind).collect::<Vec<_>>(), cls)); return; }
+    let tern = smp[0].comps();
+    let kq = key_qs(s);
+    for mode in ["sk", "seed"] {
+        let (pk, smp) = taped(|| kg.create_public_key(mode == "seed"));
+        let pk = match pk { Some(p) => p, None => { out.raw(&format!("!FAIL keygen_op {} {} :: create_public_key panicked # {}", cls, mode, cls)); return } };
+        if smp.len() != 2 || smp[0].kind != "uniform" || smp[1].kind != "centered_binomial" { out.raw(&format!("!FAIL keygen_op {} {} :: public key generation drew {:?} # {}", cls, mode, smp.iter().map(|x| x.kind).collect::<Vec<_>>(), cls)); return; }
+        let drawn = smp.iter().map(|x| x.comps()).collect::<Vec<_>>().join("|");
+        let ct = pk.as_ciphertext().clone();
+        if ct.parms_id() != s.ctx.key_parms_id() { out.raw(&format!("!FAIL keygen_op {} {} :: the public key is not at the key level # {}", cls, mode, cls)); return; }
+        let (seedinfo, ct) = match stored_seed(&ct) {
+            Some(seed) => (format!("{}@{}", hex(&seed), xofdata(&seed, 8 * s.n * kq.len() * 13 / 10 + 256)), match std::panic::catch_unwind(std::panic::AssertUnwindSafe(|| ct.expand_seed(&s.ctx))) { Ok(c) => c, Err(_) => { out.raw(&format!("!FAIL keygen_op {} {} :: expand_seed panicked # {}", cls, mode, cls)); return } }),
+            None => ("-".to_string(), ct),
+        };
+        let lhs = format!("keygen_op {} {} {} {} {} {} {} {}", scheme_name(s.scheme), s.n, fl(&kq), s.t, mode, tern, drawn, seedinfo);
+        let skd = rns_str(kg.secret_key().data(), s.n);
+        out.case(&lhs, &format!("{}-keygen-{}", cls, mode), || format!("{} {}", skd, s.ct_str(&ct)));
+    }
+}
+
 pub fn enc_ops(out: &mut Out, r: &mut Rng, thorough: bool) {
     let reps = if thorough { 40 } else { 12 };
     for rep in 0..reps {
@@ -114,6 +140,7 @@ pub fn enc_ops(out: &mut Out, r: &mut Rng, thorough: bool) {
         let cls = format!("enc-{}-n{}-k{}-t{}{}", scheme_name(scheme), n, k, tk, match sp { Some(true) => "-sp", Some(false) => "-nosp", None => "" });
         let levels = s.levels();
         let first = levels[0];
+        keygen_lines(out, &s, &cls);
         // --- plaintext encryptions (first level; CKKS: every level)
         if scheme == SchemeType::CKKS {
             let enc = CKKSEncoder::new(s.ctx.clone());
